@@ -2,7 +2,8 @@
    run_case  : the Impl model evaluated on a case of a component;
    oracle    : the Spec-layer judgement of a property on the IMPLEMENTATION's observations. *)
 From Coq Require Import NArith List.
-From ACPI Require Import Lib.Bytes Lib.Sx Impl.Checksum Spec.ChecksumS Impl.AmlCore Spec.AmlCoreS Spec.Layout.
+From ACPI Require Import Lib.Bytes Lib.Sx Impl.Checksum Spec.ChecksumS Impl.AmlCore Spec.AmlCoreS Spec.Layout
+  Impl.AmlTerm Spec.AmlTermS.
 From ACPI Require Import Impl.Xsdt Impl.Mcfg Impl.Madt Impl.Srat Impl.Slit Impl.Hmat Impl.Pptt Impl.Rhct Impl.Rimt
   Impl.Viot Impl.Cedt Impl.Hest Impl.Rqsc Impl.Tpm2 Impl.Fadt Impl.Bert Impl.Spcr Impl.Facs Impl.Rsdp Impl.Sdt.
 From ACPI Require Import Spec.XsdtS Spec.McfgS Spec.MadtS Spec.SratS Spec.SlitS Spec.HmatS Spec.PpttS Spec.RhctS Spec.RimtS
@@ -13,7 +14,8 @@ Open Scope N_scope.
 (* component ids:
    1 checksum accumulator; 2 create_pkg_length (hook); 3 integer constants; 4 Path::new + encode; 5 EISAName; 6 Uuid;
    10 XSDT 11 MCFG 12 MADT 13 SRAT 14 SLIT 15 HMAT 16 PPTT 17 RHCT 18 RIMT 19 VIOT 20 CEDT 21 HEST 22 RQSC
-   23 Tpm2 24 TpmServer1_2 25 TpmClient1_2 26 FADT 27 BERT 28 SPCR 29 FACS 30 RSDP 31 Sdt *)
+   23 Tpm2 24 TpmServer1_2 25 TpmClient1_2 26 FADT 27 BERT 28 SPCR 29 FACS 30 RSDP 31 Sdt
+   40 one AML term; 41 a pair of AML terms (alternative constructions) *)
 Definition run_case (md : mode) (comp : N) (c : sx) : list ev :=
   match comp with
   | 1 => ck_case c
@@ -28,6 +30,7 @@ Definition run_case (md : mode) (comp : N) (c : sx) : list ev :=
   | 22 => rqsc_case md c | 23 => tpm2_case md c | 24 => tpmserver_case md c | 25 => tpmclient_case md c
   | 26 => fadt_case md c | 27 => bert_case md c | 28 => spcr_case md c | 29 => facs_case md c
   | 30 => rsdp_case md c | 31 => sdt_case md c
+  | 40 => aml_case md c | 41 => aml_pair_case md c
   | _ => [EvPanic]
   end.
 
@@ -80,8 +83,28 @@ Definition oracle (prop comp : N) (c : sx) (impl : list ev) : bool :=
   | 18, 4 => path_oracle c impl
   | 16, 5 => eisa_oracle c impl
   | 16, 6 => uuid_oracle c impl
+  | 6, 40 => c06_oracle c impl
+  | 10, 40 => c10_oracle c impl && c06_oracle c impl
+  | 15, 41 => c15_oracle c impl
+  | 15, 40 => c06_oracle c impl
   | _, _ => true
   end.
 
 (* helper for the driver's decimal number reader *)
 Definition dec_step (acc d : N) : N := acc * 10 + d.
+
+(* is the case inside the domain the property's oracle actually judges? (reported as 'judged' in the evidence) *)
+Definition judged (prop comp : N) (c : sx) : bool :=
+  match prop, comp with
+  | 6, 40 | 15, 40 => match expect false c with Some _ => env_consistent c | None => false end
+  | 10, 40 => match c with
+              | SL (SA 62 :: [SL ks]) => match opt_all (map (fun d => match d with SL dl => ref_desc dl | SA _ => None end) ks) with Some _ => true | None => false end
+              | SL l => match ref_desc l with Some _ => true | None => false end
+              | _ => false end
+  | 15, 41 => match c with SL [x; _] => match expect false x with Some _ => true | None => false end | _ => false end
+  | _, _ => if is_table comp then
+              match case_parts c with
+              | Some (ctor, ops) => match ts_image (spec_of comp) ctor (real_ops ops) with Some _ => true | None => false end
+              | None => false end
+            else true
+  end.
